@@ -12,7 +12,8 @@ PINS_FILE = Path(__file__).resolve().parents[2] / "translate" / "pins_C21.json"
 
 FAMILY = {"inc": 0, "pair": 1, "mk": 2, "add2": 3, "sumc": 4, "pick": 5, "boom": 6, "rec": 7, "kboom": 8, "rec2": 9}
 SIGS = {"inc": ["x", "tag"], "pair": ["x", "tag"], "mk": ["x", "tag"], "add2": ["x", "y", "tag"], "sumc": ["c", "tag"],
-        "pick": ["x", "tag"], "boom": ["x", "tag"], "rec": ["e"], "kboom": ["x", "tag"], "rec2": ["e", "bonus"]}
+        "pick": ["x", "tag"], "boom": ["x", "tag"], "rec": ["e"], "kboom": ["x", "tag"], "rec2": ["e", "bonus"],
+        "leaf": ["x", "tag"]}       # leaf: editable task of the oracle's edit-and-rerun histories (not in FAMILY / the Coq world)
 OPS = {"add": 0, "mul": 1, "getitem": 2}
 NS = "c21"
 
@@ -27,6 +28,7 @@ K_MAP = "map_:mapped-calls"
 _T = None
 RECEIVED: list = []
 COUNTER = [0]
+LEAF = [0]          # what the current version of the editable task c21.leaf adds to its argument
 IMPURE_FORMS = ["getitem", "add", "cond", "seq", "list", "dict", "direct", "catch"]
 
 
@@ -184,6 +186,20 @@ def tasks():
 
     fam = {"inc": inc, "pair": pair, "mk": mk, "add2": add2, "sumc": sumc, "pick": pick, "boom": boom,
            "kboom": kboom, "rec": rec, "rec2": rec2}
+
+    def define_leaf(k):
+        """(Re)define the editable leaf task: version k returns x + 10*k.  An edit between two executions gives
+        the task a new hash, so a cached parent's deserialised result expression re-runs it (oracle only)."""
+        LEAF[0] = 10 * k
+
+        @task(namespace=NS, name="leaf", version=str(k))
+        def leaf(x, tag=0):
+            log("leaf", x=x, tag=tag)
+            return x + 10 * k
+
+        fam["leaf"] = leaf
+
+    define_leaf(0)
     classes = {0: ValueError, 1: KeyError, 2: (ValueError, KeyError)}
 
     def build(s):
@@ -272,7 +288,8 @@ def tasks():
     def imain(stages):
         return [istage(label, form) for label, form in stages]
 
-    _T = {"main": main, "fam": fam, "main_catch_all": main_catch_all, "main_map": main_map, "imain": imain}
+    _T = {"main": main, "fam": fam, "main_catch_all": main_catch_all, "main_map": main_map, "imain": imain,
+          "define_leaf": define_leaf}
     return _T
 
 
@@ -427,7 +444,7 @@ def read_db(backend):
     sess.expire_all()
     names = {}
     for cn in sess.query(CallNode).all():
-        if cn.task_name.startswith(NS + ".") and cn.task_name.split(".", 1)[1] in FAMILY:
+        if cn.task_name.startswith(NS + ".") and cn.task_name.split(".", 1)[1] in SIGS:
             names[cn.call_hash] = cn.task_name.split(".", 1)[1]
     calls = {h: (n, []) for h, n in names.items()}
     for arg in sess.query(Argument).all():
@@ -466,7 +483,8 @@ def bound_id(name, pos, kw):
 # ---------------------------------------------------------------- reference semantics (oracle side, no Coq)
 CLS = {0: (ValueError,), 1: (KeyError,), 2: (ValueError, KeyError)}
 DEFAULTS = {"inc": {"tag": 0}, "pair": {"tag": 0}, "mk": {"tag": 0}, "add2": {"y": 5, "tag": 0}, "sumc": {"tag": 0},
-            "pick": {"tag": 0}, "boom": {"tag": 0}, "kboom": {"tag": 0}, "rec": {}, "rec2": {"bonus": 3}}
+            "pick": {"tag": 0}, "boom": {"tag": 0}, "kboom": {"tag": 0}, "rec": {}, "rec2": {"bonus": 3},
+            "leaf": {"tag": 0}}
 
 
 def py_task(name, b):
@@ -490,6 +508,8 @@ def py_task(name, b):
         return 100 + b["e"].args[0] % 1000
     if name == "rec2":
         return b["e"].args[0] % 1000 + b["bonus"]
+    if name == "leaf":
+        return b["x"] + LEAF[0]
     raise AssertionError(name)
 
 
@@ -511,7 +531,11 @@ class Ref:
 
     def cid(self, name, items):
         b = self.bind(name, items)
-        return (name, tuple(sorted(((k, canon(v)) for k, v in b.items()), key=lambda kv: kv[0])))
+        cid = (name, tuple(sorted(((k, canon(v)) for k, v in b.items()), key=lambda kv: kv[0])))
+        if name == "leaf":
+            # the same leaf call before and after an edit are two call nodes: told apart by their result
+            cid = (name, cid[1] + (("~result", py_task(name, b)),))
+        return cid
 
     def sems(self, items):
         """leftmost error, else list of values"""
@@ -668,12 +692,15 @@ class ProgGen:
     when both the original and the copy are evaluated in the initial eager sweep (then the real scheduler's
     interleaving cannot change which of the two is evaluated first)."""
 
-    def __init__(self, rng, free, tagbase, dup_sched=True):
+    def __init__(self, rng, free, tagbase, dup_sched=True, leaf=False, no_boom=False, no_catch=False):
         self.rng = rng
         self.free = free
         self.tag = tagbase
         self.pool = []          # (type, spec, eager, escaping boom kinds)
         self.dup_sched = dup_sched
+        self.leaf = leaf            # also generate calls of the editable task c21.leaf (oracle only)
+        self.no_boom = no_boom
+        self.no_catch = no_catch
 
     def newtag(self):
         self.tag += 1
@@ -736,13 +763,15 @@ class ProgGen:
             return self.call(kind, [("x", self.gen("I", d - 1, eager, Budget(0))), ("tag", self.newtag())])
         if d <= 0:
             if noconst or r.random() < 0.4:
-                return self.call("inc", [("x", ["c", r.randint(0, 4)]), ("tag", self.newtag())])
+                return self.call("leaf" if self.leaf and r.random() < 0.6 else "inc",
+                                 [("x", ["c", r.randint(0, 4)]), ("tag", self.newtag())])
             return ["c", r.randint(0, 5)]
         k = r.random()
         if k < 0.08 and not noconst:
             return ["c", r.randint(0, 5)]
         if k < 0.2:
-            return self.call(r.choice(["inc", "pick"]), [("x", self.gen("I", d - 1, eager, budget)), ("tag", self.newtag())])
+            return self.call(r.choice(["inc", "pick"] + (["leaf", "leaf"] if self.leaf else [])),
+                             [("x", self.gen("I", d - 1, eager, budget)), ("tag", self.newtag())])
         if k < 0.32:
             given = [("x", self.gen("I", d - 1, eager, budget))]
             if r.random() < 0.5:
@@ -781,7 +810,9 @@ class ProgGen:
 
     def gen_catch(self, d, eager, budget):
         r = self.rng
-        inner = Budget(1)
+        if self.no_catch:
+            return self.gen_cond("I", d, eager, budget)
+        inner = Budget(0 if self.no_boom else 1)
         body = self.gen("I", d - 1, eager, inner)
         rec = r.choice(["rec", "rec2"])
         if not inner.kinds:
@@ -915,17 +946,38 @@ def witness_replay(kind):
 
 
 # ---------------------------------------------------------------- the oracle on one history
-def check_history(programs, classify=None):
+def strip_result(cid):
+    return (cid[0], tuple(kv for kv in cid[1] if kv[0] != "~result"))
+
+
+def check_history(programs, classify=None, edits=None):
     """Run the programs on one fresh backend and decide the property on what was recorded.
+    edits[i] = version of the editable task c21.leaf installed before run i (None: keep).  Running the same
+    program again after an edit makes c21.main a cache hit whose result expression is read back from the backend.
     Returns a list of (key_suffix, what, detail)."""
+    try:
+        return check_history_(programs, classify, edits)
+    finally:
+        if edits:
+            tasks()["define_leaf"](0)
+
+
+def check_history_(programs, classify, edits):
+    from redun.backends.db import CallNode
     ref = Ref()
     backend = fresh_backend()
     bad = []
     seen = set()
+    tasks()["define_leaf"](0)
     for idx, spec in enumerate(programs):
+        if edits and edits[idx] is not None:
+            tasks()["define_leaf"](edits[idx])
         _, results, received = run_programs([spec], backend)
         calls = read_db(backend)
         ids = {h: bound_id(*call_id(n, rows)) for h, (n, rows) in calls.items()}
+        for cn in backend.session.query(CallNode).filter(CallNode.task_name == NS + ".leaf").all():
+            if cn.call_hash in ids:
+                ids[cn.call_hash] = (ids[cn.call_hash][0], ids[cn.call_hash][1] + (("~result", canon(cn.value.value_parsed)),))
         want = ref.sem(spec)
         got = results[0]
         if want[0] != got[0] or canon(want[1]) != canon(got[1]):
@@ -941,7 +993,7 @@ def check_history(programs, classify=None):
                 continue
             seen.add(h)
             cid = ids[h]
-            if cid not in recv:
+            if strip_result(cid) not in recv:
                 bad.append(("values", f"run {idx}: recorded arguments of {name} {cid[1]} are not what any {name} "
                             "call received", {"call": repr(cid)}))
             for p, k, v, ups in rows:
@@ -995,7 +1047,8 @@ class Check(PropertyCheck):
     id = "C21"
     module = "Props.C21"
     theorems = ["C21_args_recorded", "C21_upstream_complete_fixed", "C21_values_fixed", "C21_upstream_refuted_dup",
-                "C21_upstream_refuted_cached", "C21_sites_separate", "C21_nonvacuous"]
+                "C21_upstream_refuted_cached", "C21_sites_separate", "C21_roundtrip_invariant",
+                "C21_upstream_complete_roundtrip", "C21_roundtrip_refuted", "C21_nonvacuous"]
     extra_modules = []
     allowed_axioms = []
     section_premises = []
@@ -1045,7 +1098,7 @@ class Check(PropertyCheck):
 
     def variant_term(self):
         i = getattr(self, "info", {"copy_sched": False, "derive_cached": False})
-        return ("{| v_copy_sched := %s; v_derive_cached := %s |}"
+        return ("{| v_copy_sched := %s; v_derive_cached := %s; v_forget := false |}"
                 % ("true" if i["copy_sched"] else "false", "true" if i["derive_cached"] else "false"))
 
     # ------------------------------------------------------------------
@@ -1085,7 +1138,7 @@ class Check(PropertyCheck):
     def correspond(self):
         info = getattr(self, "info", {"variant": "shipped", "copy_sched": False, "derive_cached": False})
         free = info["copy_sched"] and info["derive_cached"]
-        n = 100 if self.tier == "quick" else 3000
+        n = 60 if self.tier == "quick" else 2000
         cases = [witness_dup("cond"), witness_dup("seq"), witness_dup("catch"), witness_replay("main"),
                  witness_replay("recover")]
         corpus = CORPUS / "C21.jsonl"
@@ -1148,7 +1201,7 @@ class Check(PropertyCheck):
             for line in corpus.read_text().splitlines():
                 if line.strip():
                     histories.append(("corpus", json.loads(line)["programs"]))
-        n = 60 if self.tier == "quick" else 1500
+        n = 45 if self.tier == "quick" else 1000
         for i in range(n):
             g = ProgGen(self.rng, free, 1000 * (i % 400) + 1, dup_sched=info["copy_sched"])
             p1 = g.program(self.rng.randint(1, 4))
@@ -1170,6 +1223,37 @@ class Check(PropertyCheck):
                 else:
                     fkey = f"{key}:{json.dumps(ps)}"[:300]
                 self.findings.append(Finding(fkey, what, {"kind": "history", "programs": ps}))
+        # edit-and-rerun: run a program, edit the leaf task (new hash, new values), run the SAME program again on the
+        # same backend: c21.main is a cache hit, its result expression is read back from the backend (unpickled:
+        # new objects, __setstate__ bookkeeping), the leaf calls re-run and every call downstream of them gets a new
+        # CallNode whose Argument rows are recorded from the deserialised expressions.  Judged like any history.
+        # As shipped, catch (replayed from its cache in the second run: known defect) is left out; error sources are
+        # left out always (a replayed recover expression keeps the error of the first run by design).
+        edit_hist = [[T("sumc", ["cond", [T("pick", C(1), 1), T("leaf", C(2), 2), T("inc", C(3), 3)]], 10)],
+                     [T("sumc", ["L", [["seq", [T("leaf", C(1), 1), T("inc", C(2), 2)]],
+                                       ["D", [["a", ["op", "add", [T("leaf", C(1), 3), C(1)]]],
+                                              ["b", ["cond", [C(0), C(5), T("pair", T("leaf", C(4), 4), 5)]]]]]]], 11)]]
+        for i in range(20 if self.tier == "quick" else 250):
+            for _ in range(20):
+                g = ProgGen(self.rng, free, 1000 * (i % 400) + 1, dup_sched=info["copy_sched"], leaf=True,
+                            no_boom=True, no_catch=not info["derive_cached"])
+                p = g.program(self.rng.randint(1, 4))
+                if any(n[1] == "leaf" for n in task_nodes(p)):
+                    break
+            edit_hist.append([p])
+        for ps in edit_hist:
+            k = self.rng.randint(1, 3)
+            runs, edits = [ps[0], ps[0]], [0, k]
+            if self.rng.random() < 0.3:
+                runs.append(ps[0])
+                edits.append(k + 1)
+            bad = check_history(runs, None, edits)
+            self.evaluations += 1
+            self.stat("oracle", "edit-and-rerun")
+            for key, what, detail in bad:
+                nf += 1
+                self.findings.append(Finding(f"edit:{key}:{json.dumps(ps[0])}"[:300], what,
+                                             {"kind": "history", "programs": runs, "edits": edits}))
         # equal lazy expressions over an uncached impure producer, under different parent jobs and in successive
         # executions on one backend object (outside the one-level model: decided on the implementation only).
         # catch is left out as shipped: equal catch expressions of two stages share the backend's catch cache,
@@ -1178,7 +1262,7 @@ class Check(PropertyCheck):
         impure = [[[("a", "getitem"), ("b", "getitem")]],
                   [[("a", "add"), ("b", "cond")], [("c", "add"), ("d", "cond")]],
                   [[("a", "seq"), ("b", "seq"), ("c", "dict")], [("d", "dict"), ("e", "list"), ("f", "list")]]]
-        for _ in range(25 if self.tier == "quick" else 400):
+        for _ in range(12 if self.tier == "quick" else 200):
             impure.append(gen_impure(self.rng, forms))
         for execs in impure:
             self.evaluations += 1
@@ -1226,7 +1310,7 @@ class Check(PropertyCheck):
         r = doc.get("replay", {})
         if r.get("kind") == "history":
             info = {"copy_sched": True, "derive_cached": True}
-            bad = check_history(r["programs"], None)
+            bad = check_history(r["programs"], None, r.get("edits"))
             for key, what, _ in bad:
                 print("replay:", what)
             if not bad:
